@@ -109,6 +109,28 @@ func init() {
 						Docs: []eDoc{{ID: 1, Cons: []eConj{{{F: 0, Inc: true, Op: op, V: v}}}}}, Queries: mkQueries(0)})
 				}
 			}
+			// several range expressions on one field in one conjunction (each must keep its own values): narrow and
+			// wide, include and exclude, overlapping and disjoint
+			{
+				bt := func(inc bool, l, h int64) eExpr {
+					return eExpr{F: 0, Inc: inc, Op: 3, V: tvSlice("[]int64", tvInt("int64", l), tvInt("int64", h))}
+				}
+				var qs []eQuery
+				for x := int64(-2); x <= 31; x++ {
+					qs = append(qs, eQuery{A: []eAssign{{F: 0, V: tvInt("int", x)}}})
+				}
+				qs = append(qs, eQuery{A: []eAssign{{F: 0, V: tvInt("int", 500)}}}, eQuery{A: []eAssign{{F: 0, V: tvInt("int", 1500)}}})
+				for _, kind := range []string{"kgroups", "compact"} {
+					add(eCase{Kind: kind, Policy: "error", Configs: map[int]string{0: "ext_range"}, Queries: qs, Docs: []eDoc{
+						{ID: 1, Cons: []eConj{{bt(true, 0, 25), bt(false, 10, 15)}}},
+						{ID: 2, Cons: []eConj{{bt(true, 0, 5), bt(true, 20, 23)}}},
+						{ID: 3, Cons: []eConj{{bt(false, 3, 9), bt(true, 0, 30), bt(false, 25, 27)}}},
+						{ID: 4, Cons: []eConj{{bt(true, 2, 4), bt(true, 0, 1000)}}},
+						{ID: 5, Cons: []eConj{{bt(true, 0, 1000), bt(false, 5, 8)}}},
+						{ID: 6, Cons: []eConj{{bt(false, 0, 2000), bt(true, 28, 30)}, {bt(true, 29, 31), {F: 0, Inc: true, Op: 2, V: tvInt("int", 3)}}}},
+					}})
+				}
+			}
 			if tier == "thorough" {
 				zoo := scalarZoo()
 				for i := 0; i < 20000; i++ {
